@@ -65,6 +65,9 @@ type End struct {
 	StartErr  map[party.ID]error
 	Applied   bool // the fault's slot was reached
 	Accepted  bool // the victim's CanAccept said yes to the altered message
+	// RelayFrom[x] = y: party x was running, was delivered an abort notice (round 0) of y, and was in
+	// error afterwards - its error is the relay of y's abort, whatever the error text says.
+	RelayFrom map[party.ID]party.ID
 }
 
 // Transcript runs the session honestly and returns the delivery sequence.
@@ -98,7 +101,7 @@ func matches(f *Fault, d drv.Delivery) bool {
 
 func run(spec *sess.Spec, seed int64, label string, f *Fault, observe func(drv.Delivery)) *End {
 	net, startErr := sess.Build(spec, seed, label)
-	end := &End{Parties: map[party.ID]*PartyEnd{}, StartErr: startErr}
+	end := &End{Parties: map[party.ID]*PartyEnd{}, StartErr: startErr, RelayFrom: map[party.ID]party.ID{}}
 	if len(startErr) > 0 {
 		return end
 	}
@@ -186,6 +189,13 @@ func run(spec *sess.Spec, seed int64, label string, f *Fault, observe func(drv.D
 			if f.Mode == "inject" {
 				net.Parties[d.To].Deliver(d.M)
 			}
+		} else if d.M != nil && d.M.RoundNumber == 0 {
+			p := net.Parties[d.To]
+			before := p.Status()
+			p.Deliver(d.M)
+			if before == "running" && p.Status() == "error" {
+				end.RelayFrom[d.To] = d.M.From
+			}
 		} else {
 			net.Parties[d.To].Deliver(d.M)
 		}
@@ -210,7 +220,7 @@ func run(spec *sess.Spec, seed int64, label string, f *Fault, observe func(drv.D
 		switch {
 		case r != nil:
 			pe.Status, pe.Result = "done", r
-		case err != nil && err.Error() == "protocol: not finished":
+		case drv.IsNotFinished(err):
 			pe.Status = "running"
 		default:
 			pe.Status = "error"
